@@ -15,7 +15,7 @@ RULE = ("seeded (algorithm, data class, rank, option set) configurations; each i
         "tolerance-stopped run and (where offered) a callback run; non-trivial = at least 2 sweeps with a non-zero error "
         "or an exactly-low-rank fit; distinct = distinct configuration descriptors")
 ASSUMPTIONS = ["independent einsum reconstruction is the reference", "prefix runs rely on seeded determinism (C16), itself checked here as the 'prefix' clause",
-               "masked variants are not part of the statement", "squares compared: |rep^2-true^2| <= 5e4*eps*(||X||^2+||M||^2+2|<X,M>|)/||X||^2"]
+               "masked CP-ALS (plain / sparse-plus-low-rank): the documented value is the misfit on the tensor imputed from the same iterate, relative to that tensor; other masked variants are not judged", "squares compared: |rep^2-true^2| <= 5e4*eps*(||X||^2+||M||^2+2|<X,M>|)/||X||^2"]
 ALGOS = decomp.ALGOS
 CASE_TIMEOUT = {"quick": 120, "thorough": 120}
 
@@ -191,6 +191,48 @@ def _run_case(case, ctx):
                 if not all(np.isfinite(float(e)) for e in r["errors"]) or not sq_ok(r["errors"][-1], te, sc, eps, sq):
                     ctx.violation(key("last-error-long-run"), "%s after %d reported values (budget %d, tol %g): last reported %.12g, true error of the returned decomposition %.12g" % (
                         algo, len(r["errors"]), budget, tolv, float(r["errors"][-1]), te), {"desc": desc, "errors_tail": [float(e) for e in r["errors"][-6:]]})
+                    return
+    # (3c) CP-ALS with missing entries (plain and sparse-plus-low-rank): the documented value is the misfit of the current iterate on
+    # the tensor whose missing cells are imputed from that same iterate, relative to the norm of that imputed tensor
+    if algo == "parafac" and user_init is None and data["kind"] == "tensor" and case["idx"] % 2 == 0 and not opts.get("l2_reg"):
+        from tensorly import decomposition as D
+        X = data["X"]
+        mask = (rs.uniform(size=X.shape) < 0.8).astype(float)
+        filler = float(gen.choice(rs, [0.0, 3.0])) * float(np.max(np.abs(X)))
+        Xin = X * mask + filler * (1 - mask)
+        mopts = {k_: v_ for k_, v_ in opts.items() if k_ in ("init", "sparsity", "normalize_factors", "cvg_criterion")}
+        recs = []
+
+        def mcb(dec, error=None):
+            # deep copies: the library keeps updating the arrays it hands out
+            if mopts.get("sparsity"):
+                snap_ = (decomp.snapshot(dec[0]), np.array(dec[1], copy=True))
+            else:
+                snap_ = decomp.snapshot(dec)
+            recs.append((snap_, None if error is None else float(error)))
+        for k in (1, 2, 4):
+            del recs[:]
+            out, errs = D.parafac(Xin.copy(), rank, n_iter_max=k, mask=mask.copy(), random_state=seed, tol=tiny, return_errors=True, callback=mcb, **mopts)
+            pairs = [(out, float(errs[-1]), "last of %d" % k)] if errs else []
+            pairs += [(d_, e_, "callback #%d of the %d-sweep run" % (j_, k)) for j_, (d_, e_) in enumerate(recs) if e_ is not None and j_ >= 1]
+            for dec_, rep_, where in pairs:
+                if mopts.get("sparsity"):
+                    cp_, S_ = dec_
+                    S_ = ref.hp(np.asarray(S_))
+                else:
+                    cp_, S_ = dec_, 0.0
+                w_, f_ = cp_ if isinstance(cp_, tuple) else decomp.snapshot(cp_)
+                M_, Mabs_, _ = ref.cp_dense(w_, f_)
+                imp = ref.hp(X) * mask + M_ * (1 - mask)
+                ctx.count("values/masked")
+                want_sq = ref.frob_sq(imp - M_ - S_) / ref.frob_sq(imp)
+                scale_sq = ref.frob_sq(np.abs(ref.hp(X)) * mask + Mabs_ + np.abs(S_)) / ref.frob_sq(imp)
+                if not np.isfinite(rep_) or abs(rep_ ** 2 - want_sq) > 5e4 * eps * scale_sq:
+                    ctx.violation(key("masked-error"), "masked parafac (%s): reported %.12g but the iterate has error %.12g on the tensor imputed from it" % (where, rep_, float(np.sqrt(want_sq))), desc)
+                    return
+                if mopts.get("sparsity") and np.any(S_[mask == 0] != 0):
+                    ctx.violation(key("masked-sparse-component"), "masked sparse-plus-low-rank parafac (%s): the sparse component has non-zero entries in missing cells, where the imputed "
+                                  "residual is exactly zero" % where, desc)
                     return
     # (4) callbacks
     if algo in ("parafac", "randomised_parafac", "tr_als") and user_init is None:
